@@ -157,6 +157,22 @@ func (fe *FnExec) callWith(st *State, in ssa.Instruction, c *ssa.CallCommon, rec
 	return fe.applyContract(st, in, ci, all)
 }
 
+// qualifiedCallee: "pkg.Func" for a package-level function of another package (so
+// that a contract can tell log.Printf from a method that happens to be called Printf).
+func qualifiedCallee(ci calleeInfo) string {
+	d := shortFn(ci.desc)
+	if d == "" || strings.HasPrefix(d, "(") || strings.HasPrefix(d, "iface ") || strings.HasPrefix(d, "functype ") || strings.HasPrefix(d, "fieldfunc ") {
+		return ""
+	}
+	if i := strings.LastIndex(d, "/"); i >= 0 {
+		d = d[i+1:]
+	}
+	if !strings.Contains(d, ".") || d == ci.short {
+		return ""
+	}
+	return d
+}
+
 // localEnv: the caller-side environment including named locals.
 func (fe *FnExec) localEnv(st *State, old *State) *Env {
 	env := fe.env(st, old)
@@ -333,6 +349,9 @@ func (fe *FnExec) applyContract(st *State, in ssa.Instruction, ci calleeInfo, al
 		st.assume(t, fmt.Sprintf("ensures of %s: %s", ci.short, cl.Text))
 	}
 	st.countCall(ci.short)
+	if q := qualifiedCallee(ci); q != "" {
+		st.countCall(q)
+	}
 	{
 		st.callSeq++
 		rec := callRec{pre: pre, seq: st.callSeq, args: all, argT: ci.ptypes, res: res}
@@ -513,6 +532,9 @@ func (fe *FnExec) havocCall(st *State, in ssa.Instruction, ci calleeInfo, all []
 	}
 	fe.applyGiven(st, ci, fe.callOrd[in], "given_after", hv)
 	st.countCall(ci.short)
+	if q := qualifiedCallee(ci); q != "" {
+		st.countCall(q)
+	}
 	st.callSeq++
 	st.callLog[fmt.Sprintf("%s#%d", ci.short, st.callCnt[ci.short])] = callRec{pre: preCall, seq: st.callSeq, args: all, argT: ci.ptypes, res: res, resT: resT}
 	st.callLog[fmt.Sprintf("%s@%d", ci.short, fe.callOrd[in])] = st.callLog[fmt.Sprintf("%s#%d", ci.short, st.callCnt[ci.short])]
@@ -841,6 +863,10 @@ func (fe *FnExec) doReturn(st *State, x *ssa.Return) {
 	}
 	fe.retPaths++
 	fe.cover(st, "return", "a return is reachable")
+	// each postcondition is checked on its own: a failed clause must not be assumed
+	// for the clauses after it (it would hide their failures)
+	fe.noAssume = true
+	defer func() { fe.noAssume = false }()
 	if fe.C.Impl != nil {
 		fe.refineEnsures(st, vals, x.Pos())
 	}
